@@ -98,7 +98,7 @@ class det_uuid:
 
         def f():
             c[0] += 1
-            return uuid.UUID(int=hi + c[0])
+            return uuid.UUID(int=((c[0] & 0xffffffff) << 96) + hi + c[0])        # every hex prefix of the value differs from call to call
         uuid.uuid4 = f
 
     def __exit__(self, *a):
